@@ -160,11 +160,26 @@ def rule_print(ctx):
     ctx.check('print', 'forward-complete-iteration', not bad, ob, 'no reordering/skipping adaptor on the tx/output loops: %s' % [mir.method_name(c.name) for c in bad])
 
 
+def rule_push_forms(ctx):
+    """fork path, "every push form (direct, PUSHDATA1/2/4)": the data token the payload is taken from is delimited by the
+    tokenizer's push length — operand width per opcode and little-endian combination are C06's rules, re-evaluated here
+    because the payload clause depends on them"""
+    import c06
+    before = len(ctx.instances)
+    c06.rule_le(ctx)
+    c06.rule_arms(ctx)
+    for i in ctx.instances[before:]:
+        i.key = i.key.replace('C16.le:', 'C16.push_forms:le:').replace('C16.arms:', 'C16.push_forms:arms:')
+        i.rule = 'push_forms'
+
+
 def run(ctx):
     ctx.trusted += ['std String::from_utf8 / from_utf8_lossy', 'rust-bitcoin Script::instructions push decoding', 'C02 (chain order of on_block calls)']
     ctx.guard('payload_btc', rule_payload_btc)
     ctx.guard('payload_fork', rule_payload_fork)
+    ctx.guard('push_forms', rule_push_forms)
     ctx.guard('print', rule_print)
     ctx.floor('payload_btc', 5)
     ctx.floor('payload_fork', 4)
     ctx.floor('print', 10)
+    ctx.floor('push_forms', 10)
